@@ -37,6 +37,8 @@ CONSTANTS SynthTxt,    \* the txt of synthesised commands ("" in traces, a tuple
 (* and property run.                                                       *)
 (***************************************************************************)
 Dev_G92Sign      == "g92sign" \in Dev          \* D11 G92 X/Y/Z shift stored with inverted sign
+Dev_G92ERel      == "g92erel" \in Dev          \* D20 G92 E applied relatively in relative E mode
+Dev_RelNoG92     == "relNoG92" \in Dev         \* D21 relative-mode retract commands without G92 E
 Dev_NoTrackOff   == "noTrackDisabled" \in Dev  \* D7  X/Y not tracked while exclusion is disabled
 Dev_LastAfter    == "lastAfter" \in Dev        \* D2  lastPosition taken after the entering move
 Dev_AbsExit      == "absExit" \in Dev          \* D1  absolute re-positioning in relative mode
@@ -90,8 +92,11 @@ ListRes(fs, out) == IF out = <<>> THEN Res(fs, "suppress", <<>>) ELSE Res(fs, "l
 (***************************************************************************)
 RetractCmds(lr, eAxis, dir) ==
     IF lr.fw THEN << FwCmd(IF dir = 1 THEN "G10" ELSE "G11", lr.ptxt) >>
-    ELSE IF ~eAxis.abs THEN << G1FE(lr.feed, -(lr.amt * dir)) >>     \* relative extruder mode
-    ELSE << G92E(Logical(eAxis) + lr.amt * dir), G1FE(lr.feed, Logical(eAxis)) >>
+    \* the G92 E keeps the printer's E coordinate equal to the file's in both extruder modes;
+    \* the move is a target in absolute and a distance in relative mode
+    ELSE IF Dev_RelNoG92 /\ ~eAxis.abs THEN << G1FE(lr.feed, -(lr.amt * dir)) >>
+    ELSE << G92E(Logical(eAxis) + lr.amt * dir),
+            G1FE(lr.feed, IF eAxis.abs THEN Logical(eAxis) ELSE -(lr.amt * dir)) >>
 
 (***************************************************************************)
 (* ExcludeRegionState.recordRetraction                                     *)
@@ -266,7 +271,7 @@ AxisSetAbs(ax, c, l) ==
     IF HasV(c, l) THEN [ax EXCEPT !.cur = Val(c, l, ax.unit) + ax.off + ax.hoff, !.k = TRUE] ELSE ax
 
 HandleG92(fs, c) ==
-    [fs EXCEPT !.E = AxisSetAbs(fs.E, c, "E"),
+    [fs EXCEPT !.E = IF Dev_G92ERel THEN AxisSet(fs.E, c, "E") ELSE AxisSetAbs(fs.E, c, "E"),
                !.X = SetOffset(fs.X, c, "X"),
                !.Y = SetOffset(fs.Y, c, "Y"),
                !.Z = SetOffset(fs.Z, c, "Z")]
